@@ -685,8 +685,9 @@ theorem addProtocol_ok {d kids anc c c'} (hk : d.kind = .Protocol) (h : addProto
   cases h
   exact .proto _ (by simp [hk, neutral])
 
-theorem addTags_ok {d c c'} (h : addTags d c = .ok c') : c' = c := by
+theorem addTags_ok {d anc c c'} (h : addTags d anc c = .ok c') : c' = c := by
   unfold addTags at h
+  split at h; · cases h
   obtain ⟨_, _, h⟩ := bind_ok h
   cases h; rfl
 theorem step_ok {banned : List Kind} {e : Ent} {c c' : Cat} (h : step banned e c = .ok c') :
@@ -1502,10 +1503,13 @@ theorem addJsonRpcMethod_sim {new : TagM} {d : BDir} {kids : List BDir} {anc : L
   simp only [attachAll_sim i ns c₂ hns]
   rfl
 
-theorem addTags_sim {new : TagM} {d : BDir} {c c' : Cat}
+theorem addTags_sim {new : TagM} {d : BDir} {anc : List Up} {c c' : Cat}
     (hp : Part c.tags) (hfresh : ∀ t ∈ c'.tags, t.name ≠ new.name)
-    (hs : addTags d c = .ok c') : addTags d (insC new c) = .ok (insC new c') := by
+    (hs : addTags d anc c = .ok c') : addTags d anc (insC new c) = .ok (insC new c') := by
   unfold addTags at hs ⊢
+  split at hs; · cases hs
+  rename_i hsec
+  rw [if_neg hsec]
   obtain ⟨ns, h1, hs⟩ := bind_ok hs
   cases hs
   rw [tagsFromDirective_sim hp hfresh h1]; rfl
@@ -2050,7 +2054,7 @@ theorem collectTags_dup : ∀ (f : List BTree) (i j : Nat) (t₁ t₂ : BTree), 
 /-! ### `Tags` directives name declared tags -/
 
 theorem step_tags {banned : List Kind} {e : Ent} {c c' : Cat} (hk : e.d.kind = .Tags)
-    (hs : step banned e c = .ok c') : addTags e.d c = .ok c' := by
+    (hs : step banned e c = .ok c') : addTags e.d e.anc c = .ok c' := by
   unfold step addDirective at hs
   simp only [fail] at hs
   split at hs; · cases hs
@@ -2077,6 +2081,7 @@ theorem undeclared_tag {banned : List Kind} {f : List BTree} {d : BDir} {n : Byt
   · intro c₁ c₂ hj hs
     have := step_tags hk hs
     unfold addTags at this
+    split at this; · cases this
     obtain ⟨ns, h1, _⟩ := bind_ok this
     obtain ⟨hns, hall⟩ := tagsFromDirective_ok h1
     subst hns
